@@ -232,25 +232,25 @@ func (lm *ledModel) expect(i int) ledExpect {
 		last := len(lm.d.Mappings) - 1
 		switch act {
 		case "octave_up":
-			return ledExpect{Role: act + "|" + valueClass(st.Octave, true), LearnCh: -1, Why: fmt.Sprintf("octave_up key, octave %d", st.Octave)}
+			return ledExpect{Role: "octave|" + valueClass(st.Octave, true), LearnCh: -1, Why: fmt.Sprintf("octave_up key, octave %d", st.Octave)}
 		case "octave_down":
-			return ledExpect{Role: act + "|" + valueClass(st.Octave, false), LearnCh: -1, Why: fmt.Sprintf("octave_down key, octave %d", st.Octave)}
+			return ledExpect{Role: "octave|" + valueClass(st.Octave, false), LearnCh: -1, Why: fmt.Sprintf("octave_down key, octave %d", st.Octave)}
 		case "semitone_up":
-			return ledExpect{Role: act + "|" + valueClass(st.Semitone, true), LearnCh: -1, Why: fmt.Sprintf("semitone_up key, semitone %d", st.Semitone)}
+			return ledExpect{Role: "semitone|" + valueClass(st.Semitone, true), LearnCh: -1, Why: fmt.Sprintf("semitone_up key, semitone %d", st.Semitone)}
 		case "semitone_down":
-			return ledExpect{Role: act + "|" + valueClass(st.Semitone, false), LearnCh: -1, Why: fmt.Sprintf("semitone_down key, semitone %d", st.Semitone)}
+			return ledExpect{Role: "semitone|" + valueClass(st.Semitone, false), LearnCh: -1, Why: fmt.Sprintf("semitone_down key, semitone %d", st.Semitone)}
 		case "mapping_up":
 			cl := "free"
 			if st.Mapping == last {
 				cl = "end"
 			}
-			return ledExpect{Role: act + "|" + cl, LearnCh: -1, Why: fmt.Sprintf("mapping_up key, mapping %d of %d", st.Mapping, last+1)}
+			return ledExpect{Role: "mapping|" + cl, LearnCh: -1, Why: fmt.Sprintf("mapping_up key, mapping %d of %d", st.Mapping, last+1)}
 		case "mapping_down":
 			cl := "free"
 			if st.Mapping == 0 {
 				cl = "end"
 			}
-			return ledExpect{Role: act + "|" + cl, LearnCh: -1, Why: fmt.Sprintf("mapping_down key, mapping %d of %d", st.Mapping, last+1)}
+			return ledExpect{Role: "mapping|" + cl, LearnCh: -1, Why: fmt.Sprintf("mapping_down key, mapping %d of %d", st.Mapping, last+1)}
 		case "channel_up":
 			if st.Channel == 15 {
 				return ledExpect{Role: fmt.Sprintf("channel_up|end"), LearnCh: -1, Why: "channel_up key at channel 16"}
